@@ -143,6 +143,9 @@ func (p *Prog) funcsCalling(rel string, ids ...string) []*ssa.Function {
 // allInstrs iterates over the instructions of fn.
 func allInstrs(fn *ssa.Function, f func(in ssa.Instruction)) {
 	for _, b := range fn.Blocks {
+		if blockInfeasible(b) {
+			continue // dead under contradictory conditions (e.g. a role test repeated in an inlined helper)
+		}
 		for _, in := range b.Instrs {
 			f(in)
 		}
